@@ -54,6 +54,7 @@ type Case struct {
 	Repeat     int    `json:"repeat"` // every item is executed by this many goroutines
 	Yield      bool   `json:"yield"`
 	Order      []int  `json:"order"` // permutation seed per goroutine
+	Cold       bool   `json:"cold,omitempty"` // the concurrent calls are the first ones a freshly registered registry sees
 }
 
 const rule = "cases = work lists of (entry point, media type, input) executed by G goroutines (2..48) at GOMAXPROCS 1/2/4/16 on ONE registry with SHARED option structs (all six minifiers + a command minifier), every item by 1..3 goroutines in different orders, with Gosched pacing; inputs from the repository snippets of all media types plus re-entrant HTML/SVG/CSS documents (script, style, inline svg, style/on* attributes, data URIs); oracle = (1) every concurrent result (bytes and error text) equals the sequential result computed before, (2) the race detector is silent (build with -race, halt on first report), (3) deep snapshots of all option structs and of the exec.Cmd are unchanged, (4) while one call is parked in a reader the harness controls, all other calls complete (non-blocking), (5) the digest of all outputs of a fixed work list is identical in this process, in a repeated run and in two fresh child processes; distinct by hash of the work list; non-trivial = >= 4 goroutines, >= 2 media types and >= 1 re-entrant document"
@@ -222,6 +223,11 @@ func check(c Case) error {
 			return fmt.Errorf("a repeated sequential call gives different bytes for item %d (%s %s)\n--- first:\n%s\n%s\n--- second:\n%s\n%s", i, it.Entry, it.Kind, clip(want[i].Out), want[i].Err, clip(r.Out), r.Err)
 		}
 	}
+	// a registry with the same registrations that has not served a single call yet
+	cw := w
+	if c.Cold {
+		cw = newWorld()
+	}
 	type diff struct {
 		g, i int
 		got  result
@@ -259,7 +265,7 @@ func check(c Case) error {
 			defer wg.Done()
 			<-start
 			for _, i := range mine {
-				r := run(w, c.Items[i], c.Yield)
+				r := run(cw, c.Items[i], c.Yield)
 				if r.Out != want[i].Out || normErr(r.Err) != normErr(want[i].Err) {
 					mu.Lock()
 					diffs = append(diffs, diff{g, i, r})
@@ -336,6 +342,7 @@ func genCase(t *rapid.T) Case {
 	if c.Repeat > c.Goroutines {
 		c.Repeat = c.Goroutines
 	}
+	c.Cold = rapid.IntRange(0, 2).Draw(t, "cold") == 0
 	return c
 }
 
